@@ -38,6 +38,8 @@ META = {
             'NOT decided: error propagation through spawned tasks and "never hangs" for the task pipeline (schedules), get_rtreeindex termination (bounded Kani harness only).'),
     'C15': ('gap filling: FillValues::next enumerates exactly the specified gapless tiling (fill); merge_into pairwise split/sum (Kani complete, merge_into); merge tool clip/adjust/threshold closures (mv_adjust).',
             'NOT decided: ValueIter 50 000-base window accumulator and output naming - no function boundary within reach; stated in DESIGN §6 C15.'),
+    'C16': ('command-line converters, the sequential core: bigwigtobedgraph / bigbedtobed write one line per record of ONE range query per wanted chromosome, in file order, with start/end honoured only together with a chromosome (so a restricted output is exactly the range-query result), rest columns verbatim; the multi-threaded writers hand the per-chromosome texts over in chromosome order, which equals the single-threaded text given the same per-chromosome lines (conv_out); bedgraphtobigwig / bedtobigbed hand every option to its writer slot and end in exactly one write call on the given input for every (threads, parallel, single-pass, stdin) combination (conv_opts); every input line becomes one record with the fields of that line or a refusal (bedparse). Relative to the C01/C02/C03/C04 contracts of the library.',
+            'NOT decided: thread schedules and blocking (R1 sequentialisation; C11 is not claimed); `compat_args` / clap: the UCSC flag spellings are macro-generated string matching outside both verifiers; number formatting and parsing (ryu, `{}`, parse::<f32>) are uninterpreted; the chrom.sizes parser; `--zoom` mode. Observations recorded in DESIGN 11.3 (dropped producer JoinHandle: a failing reopen truncates the multi-threaded output silently; options accepted but never plumbed).'),
     'C17': ('per-region statistics: size, bases, weighted sum fold, min/max folds, mean0, mean, NaN when uncovered - exact on integers, shape-pinned on floats (stats), relative to the C03 query contract (bw_dec); row text in both the threaded and the single-threaded copy (avg_rows); values-over-bed per-base fill (vob).',
             'NOT decided: thread-count independence (schedules); precondition start <= end of the region is not established by parse_bed (recorded in NOTES).'),
     'C18': ('FileView window invariant and seek/read semantics == isolated range for all offsets (fview); chunking cuts only at line starts, covers the file once, terminates (chunks); indexer: every run start in a probed interval is recorded, sorted by position, repeated chromosome reported as not grouped (index).',
@@ -47,11 +49,10 @@ META = {
 }
 # properties whose enabled units are judged sufficient to claim (kept explicit: a property is
 # not claimed just because a shared unit happens to serve it)
-CLAIM = ['C01', 'C02', 'C03', 'C04', 'C05', 'C06', 'C07', 'C08', 'C09', 'C10', 'C12', 'C13', 'C15', 'C17', 'C18', 'C19']
+CLAIM = ['C01', 'C02', 'C03', 'C04', 'C05', 'C06', 'C07', 'C08', 'C09', 'C10', 'C12', 'C13', 'C15', 'C16', 'C17', 'C18', 'C19']
 NA = {
     'C11': 'quantifies over schedules of tokio tasks and OS threads; neither Verus (without rewriting the pipeline over its permission types = a model) nor Kani (no threads/async) can express it; the sequential facts it rests on are proved under C01/C12 but do not decide C11',
     'C14': 'quantifies over crash points / fault sequences across the whole pipeline; no per-call contract states "every prefix of the destination\'s operation history"; supporting facts (magic written last, no swallowed io::Error in the synchronous writer units) are proved under C09 but do not decide C14',
-    'C16': 'process-level CLI behaviour over argument spellings, thread counts and schedules; compat_args is macro-generated OsString matching outside both verifiers\' practical reach',
     'C20': 'float-valued bin arithmetic inside a pyo3/numpy cdylib: Verus floats are uninterpreted (NaN-freedom/bin membership not expressible), the crate cannot be built under cargo kani',
 }
 
